@@ -5,6 +5,7 @@ go 1.16
 require (
 	github.com/ipfs/go-cid v0.0.7
 	github.com/ipfs/ipfs-cluster v0.0.0
+	github.com/libp2p/go-libp2p v0.14.3
 	github.com/libp2p/go-libp2p-core v0.8.5
 	github.com/libp2p/go-libp2p-gorpc v0.1.3
 	github.com/multiformats/go-multihash v0.0.15
